@@ -403,7 +403,7 @@ func sameTokens(a, b []reflex.Tok) bool {
 		return false
 	}
 	for i := range a {
-		if a[i].Kind != b[i].Kind || a[i].Value != b[i].Value {
+		if a[i].Kind != b[i].Kind || (a[i].Value != b[i].Value && a[i].Kind != "~>") {
 			return false
 		}
 	}
